@@ -975,6 +975,10 @@ package tree
 //@     invariant [a_longest_path_candidate_has_positive_length] curlength >= 0.0 && (len(potentialedges) > 0 ==> curlength > 0.0)
 //@   loop 2
 //@     invariant [scan_position_within_the_path] 0 <= i && i <= len(potentialedges) && (i == 0 ==> len == 0.0)
+//@     step [first_path_branch_is_left_through_its_upper_end] i == 0 ==> next(node1) == potentialedges[0].right && next(node2) == potentialedges[0].left
+//@     step [going_up_the_cut_is_measured_from_the_lower_end] i > 0 && potentialedges[i].right == node2 ==> next(node1) == potentialedges[i].right && next(node2) == potentialedges[i].left
+//@     step [going_down_the_cut_is_measured_from_the_upper_end] i > 0 && potentialedges[i].right != node2 && potentialedges[i].left == node2 ==> next(node1) == potentialedges[i].left && next(node2) == potentialedges[i].right
+//@     step [path_length_accumulates_the_branch_just_passed] next(len) == len + potentialedges[i].length && next(i) == i + 1
 
 // ---------------------------------------------------------------------------
 // Split index (properties C04, C09): selection by count, counting
